@@ -188,6 +188,30 @@ def shard(args):
                                 dict(got=[repr(c)[:40] for c in O.coords(o)], expected=[repr(c)[:40] for c in O.coords(objs[i])]))
                     for n in names_:
                         F.check("C03", f"symbolic-numpy/reordered-fields/{oname}/column/{n}{sid}", all(O.same(a, b) for a, b in zip(flat(getattr(vr, n)), [getattr(o_, n) for o_ in objs])))
+                    # explicit out= into a target whose fields are in this order: every named column receives the result's coordinate of that name
+                    kk = T("k")
+                    for uname, call, ref in (("numpy.multiply(v,k,out=)", lambda tgt: np.multiply(v, kk, out=tgt), lambda o_: o_.scale(kk)),
+                                             ("numpy.negative(v,out=)", lambda tgt: np.negative(v, out=tgt), lambda o_: o_.scale(-1))) + \
+                            ((("numpy.add(v,v,out=)", lambda tgt: np.add(v, v, out=tgt), lambda o_: o_.add(o_)),) if all(x in ("xy", "z", "t") for x in system) else ()):
+                        try:
+                            raw2 = np.empty(shape, dtype=[(keyf(n), object) for n in order])
+                            for n in names_:
+                                raw2[keyf(n)] = col(f"{n}9_", shape)
+                            tgt = vector.array(raw2)
+                            call(tgt)
+                            exp_objs = [ref(o_) for o_ in objs]
+                            if O.sysof(exp_objs[0]) != tuple(system):
+                                continue
+                            for n in names_:
+                                F.check("C03", f"symbolic-numpy/reordered-fields/{oname}/{uname}/{n}{sid}", all(O.same(a, b) for a, b in zip(flat(tgt[keyf(n)]), [getattr(e_, n) for e_ in exp_objs])),
+                                        dict(got=repr(flat(tgt[keyf(n)])[0])[:80], expected=repr(getattr(exp_objs[0], n))[:80]))
+                        except TypeError as e:
+                            if "symbolic value inspected" in str(e):
+                                skipped += 1
+                            else:
+                                F.check("C03", f"symbolic-numpy/reordered-fields/{oname}/{uname}/defined{sid}", False, str(e)[:140])
+                        except Exception as e:
+                            F.check("C03", f"symbolic-numpy/reordered-fields/{oname}/{uname}/defined{sid}", False, f"{type(e).__name__}: {str(e)[:140]}")
                 except Exception as e:
                     F.check("C03", f"symbolic-numpy/reordered-fields/{oname}/defined{sid}", False, f"{type(e).__name__}: {str(e)[:140]}")
         # reductions (C17, for every value): Cartesian components of numpy.sum / .sum() are the sums of the elements' Cartesian components
